@@ -63,8 +63,10 @@ CLAIMED = {
             'by induction on the tree), nothing_foreign_registered, nothing_forgotten, and roundtrip_succeeds_and_is_lossless: for every well-formed chart the import of '
             'the export returns a chart (every add_state, add_transition and validate() accept) in which every state / parent / children lookup gives what it '
             'gives in the original and whose transitions are the original ones but for their identities, up to order. '
-            'PARTIAL: the behaviour clause (it follows from C07 once transition identities are renumbered) and the YAML text layer (ruamel, schema '
-            'coercions, schemaValidate on exported documents) are covered by the tie only; open findings K4, K5. ' + TIE, '§6 C11'),
+            'reimported_statechart_behaves_identically: run by the modelled PythonEvaluator from a fresh state with the same listeners, the re-imported '
+            'chart produces for every input history the same macro steps but for the identities of the transitions and the same exception at the same call '
+            '(relabelling theorem of C17 with rho = id, then C07). '
+            'PARTIAL: the YAML text layer (ruamel, schema coercions, schemaValidate on exported documents) is covered by the tie only; open findings K4, K5. ' + TIE, '§6 C11'),
     'C12': ('Lean 4 proof: accepted ⇒ structurally sound (invariant of add_state/add_transition/validate over the import fold); never another exception type (schema-shape lemma + work-list fuel bound) + fault-injection correspondence',
             'accepted_is_sound (unique names, one tree, parents composite and registered first, history under compound, transitions anchored, '
             'validate), initial_is_direct_child, memory_is_other_sibling, all_registered, never_another_exception (for EVERY loaded document the '
